@@ -113,6 +113,14 @@ chk(
     "DESIGN.md 4 C04",
 )
 
+chk(
+    "C09",
+    "constructive ground truth over grammar derivations with colliding key pools (bounded-exhaustive item sequences + seeded Hypothesis)",
+    "Exploration: every document of <= 5 (quick) / <= 6 (thorough) items over seven item kinds (entries a/b, entry a with a repeated field, zero-field entry a, strings a/b, comment) and random derivations whose entry, string and field keys come from pools of 2-4 names (case variants, names shared between entries and strings) are parsed with the bare splitter and with default parse_string; expected from the derivation alone: one block per item, first registrable occurrence live and identical to the object in entries_dict/strings_dict, every later occurrence a DuplicateBlockKeyBlock at its own position exposing key, live block and the complete duplicate (all fields, order, verbatim values), repeated field keys -> DuplicateFieldKeyBlock with exactly the repeated keys, all occurrences kept, key not registered.",
+    "Trusted: pbt/bibgen.py render() as ground truth. Values of live blocks are compared verbatim only for the bare splitter (enclosure stripping is C10's subject).",
+    "DESIGN.md 4 C09",
+)
+
 ALL = ["C%02d" % i for i in range(1, 21)]
 NOT_YET = "check not built yet in this revision of /verif (see DESIGN.md section 4 for its design); not claimed"
 
